@@ -23,7 +23,8 @@ fn with<T>(f: impl FnOnce(&mut St) -> T) -> T { ST.with(|s| f(s.borrow_mut().as_
 fn emit(v: Value) { with(|s| s.out.push(v)); }
 
 /// `n3` has the NAME of `n1` but another system type: names alone do not identify a cached system.
-const KEYS: [&str; 8] = ["f1", "f2", "x1", "n1", "n2", "s1", "s2", "n3"];
+/// `o1` is `syscall_once` with the function type of `f1`: a fresh system every call, the cache of `f1` untouched.
+const KEYS: [&str; 9] = ["f1", "f2", "x1", "n1", "n2", "s1", "s2", "n3", "o1"];
 fn code(k: &str) -> u32 { KEYS.iter().position(|x| *x == k).map(|i| i as u32 + 1).unwrap_or(0) }
 fn name(c: u32) -> &'static str { KEYS[(c - 1) as usize] }
 
@@ -111,6 +112,7 @@ fn do_call(world: &mut World, key: u32)
         "n1" => Ok(named_syscall(world, 1u32, key, n_sys)),
         "n2" => Ok(named_syscall(world, 2u32, key, n_sys)),
         "n3" => Ok(named_syscall(world, 1u32, key, n_sys_b)),
+        "o1" => Ok(world.syscall_once(key, f_sys::<1>)),
         _ =>
         {
             let id = with(|s| s.spawned[(key - 6) as usize]).expect("spawned id");
